@@ -188,7 +188,14 @@ pub fn panic_text(e: Box<dyn std::any::Any + Send>) -> String {
 /// Build the right-hand graph of a merge through the public API.
 pub fn build_tree(n: usize, spec: &TreeSpec) -> Box<dyn G> {
     let mut h = new_graph(n, spec.cap);
+    // a tree whose ids are 0, 1, 2, … in node order is built the way a program that never chooses
+    // ids would build it: every vertex through next_id()
+    let dense = spec.nodes.iter().enumerate().all(|(i, nd)| nd.id == i);
     for nd in &spec.nodes {
+        if dense {
+            let id = h.next_id();
+            h.add(id);
+        }
         h.add(nd.id);
     }
     for e in &spec.extras {
@@ -563,17 +570,18 @@ impl Runner {
                         other.put(2, &hex_of(&[1, 2]));
                     }
                     let _ = g.clone_from_dyn(&*other);
-                    for v in 0..k {
-                        let _ = g.kid(v, crate::lab::Lab::Alpha(0).direct());
-                        let _ = g.kid(v, foo);
-                        let _ = g.kids(v);
-                        let _ = g.v_print(v);
-                    }
-                    let _ = g.slice(0);
                     let _ = g.inspect(0);
                     let _ = g.to_xml();
                     let _ = g.to_dot();
                     let _ = g.debug();
+                    // the last answers given at this address are those about the lowest ids
+                    for v in (0..k).rev() {
+                        let _ = g.slice(v);
+                        let _ = g.kids(v);
+                        let _ = g.v_print(v);
+                        let _ = g.kid(v, foo);
+                        let _ = g.kid(v, crate::lab::Lab::Alpha(0).direct());
+                    }
                     let _ = g.clone_from_dyn(&*keep);
                     Ret::Unit
                 }
